@@ -17,7 +17,7 @@ ASSUMPTIONS = ['an unknown sync id word is outside "sync status record" (raises 
 EXPECT_PROBES = {'all': ['fail_before_okay', 'push_fail_sent', 'recv_fail_mid', 'c10_multi_wrte_fail', 'c10_empty_reason', 'c10_bad_record', 'c10_link_drop_after_fail']}
 OWN = ('wrong-result', 'unexpected-exception', 'timeout-instead-of-result', 'missing-exception', 'wrong-exception', 'reason-missing', 'hang', 'no-termination')
 
-REASONS = [b'', b'Permission denied', b'couldn\'t create file: Read-only file system', b'x' * 300, b'\xff\xfe bad \xc3', 'nö spáce'.encode('utf8'), b'No space left on device']
+REASONS = [b'100% full', b'My%20File.bin: %s %d', b'', b'Permission denied', b'couldn\'t create file: Read-only file system', b'x' * 300, b'\xff\xfe bad \xc3', 'nö spáce'.encode('utf8'), b'No space left on device']
 
 
 def generate(seed, tier):
